@@ -9,6 +9,8 @@ ev <idx> <ty> f=<val> … => api=<m>;<m>;… vpl=<c>;<c>;…      (`-` = no matc
 ```
 `pred` is prefix notation: `c f op val` | `r f op alias rfield` | `and P P` | `or P P` | `not P`;
 `val` is `i:<int>` | `f:<quarters>` | `s:<string>` | `b:<0|1>`.
+`nfa => <state> | <state> | …` (after a `new` line): the states of `SaseEngine::nfa()`, each
+`type;event_type;alias;predicate;postponed_predicate;epsilons;transitions;self_loop;has_epsilon_to_accept`.
 A match is `<idx><alias|_>,…|<alias>=<idx>,…` (stack | captures sorted by alias); the VPL rendering
 only shows the captures. Matches of one event are sorted.
 The `api` column is `SaseEngine::process` fed with every event; the `vpl` column is
@@ -130,6 +132,35 @@ def fmtMatch (m : Match) : String := s!"{fmtStack m.stack}|{fmtCaps m.caps}"
 
 def fmtList (l : List String) : String := if l.isEmpty then "-" else ";".intercalate (sortStrs l)
 
+/-! ### the compiled NFA, printed like the harness prints `SaseEngine::nfa()` -/
+
+def fmtVal : Val → String
+  | .int i => s!"i:{i}"
+  | .flt q => s!"f:{q}"
+  | .str s => s!"s:{s}"
+  | .bool b => if b then "b:1" else "b:0"
+
+def fmtOp : Op → String
+  | .eq => "eq" | .ne => "ne" | .lt => "lt" | .le => "le" | .gt => "gt" | .ge => "ge"
+
+def fmtPred : Pred → String
+  | .cmp f op v => s!"c {f} {fmtOp op} {fmtVal v}"
+  | .cmpRef f op a rf => s!"r {f} {fmtOp op} {a} {rf}"
+  | .and l r => s!"and {fmtPred l} {fmtPred r}"
+  | .or l r => s!"or {fmtPred l} {fmtPred r}"
+  | .not q => s!"not {fmtPred q}"
+
+def fmtIds (l : List Nat) : String := if l.isEmpty then "-" else ",".intercalate (l.map toString)
+
+def fmtNState (s : NState) : String :=
+  let st := match s.stype with | .start => "start" | .normal => "normal" | .kleene => "kleene" | .accept => "accept"
+  let pr := match s.pred with | some q => fmtPred q | none => "_"
+  let pp := match s.postponed with | some q => fmtPred q | none => "_"
+  let b := fun (x : Bool) => if x then "1" else "0"
+  s!"{st};{s.ty.getD "_"};{s.alias.getD "_"};{pr};{pp};{fmtIds s.eps};{fmtIds s.trans};{b s.selfLoop};{b s.epsAccept}"
+
+def fmtNfa (n : Nfa) : String := " | ".intercalate (n.map fmtNState)
+
 /-! ### reading the implementation's matches back (for the judges) -/
 
 def findEv (evs : List Event) (i : Nat) : Option Event := evs.find? (·.idx == i)
@@ -244,6 +275,9 @@ def step (st : St) (line : String) : St × String :=
     match parseHeader op with
     | some h => ({ ok := true, prop := h.prop, pat := h.pat, cfg := h.cfg }, "")
     | none => ({ ok := false }, "BADLINE")
+  | ["nfa"] =>
+    -- `NfaCompiler::compile` of the pattern, against the model's `compile`
+    if !st.ok then (st, "SKIP") else (st, verdict (fmtNfa (compile st.pat)) (impl?.getD ""))
   | "ev" :: _ =>
     if !st.ok then (st, "SKIP") else
     match parseEvent (words op), impl?.bind splitImpl with
